@@ -23,6 +23,7 @@ import Mathlib.Tactic.NormNum
 import Mathlib.Algebra.BigOperators.Ring.Finset
 import Rsa.Lemmas.C09
 import Rsa.Lemmas.C09Rdm
+import Rsa.Lemmas.C09R3
 import Rsa.Gen.C09
 
 set_option linter.unusedSectionVars false
@@ -621,5 +622,308 @@ example : patSelection [Rsa.Rdm.Lbl.int 5, Rsa.Rdm.Lbl.int 4] [Rsa.Rdm.Lbl.int 5
   simp at this
 
 end rdm_model
+
+/-! ## Round 3 -/
+
+/-! ### the `randint` requests, read from the source text -/
+
+/-- At each of the four call sites of `np.random.randint` in inference/bootstrap.py the request —
+    `(low, high, size)` as *regenerated from the source text on every run* — is
+    `(0, number of groups, number of groups)`, i.e. exactly the request `drawSpec` describes and
+    `ValidDraws` is an answer to.  (Breaks when an argument of a request or the construction of
+    the select array changes.) -/
+theorem draw_request_tied (site : Site) (le : L → L → Bool) (desc : List L) :
+    drawRequest site le desc = (0, (drawSpec le desc).2, (drawSpec le desc).1) := by
+  cases site <;> rfl
+
+/-- `ValidDraws` is precisely "a possible return value of the request in the source" -/
+theorem draw_request_valid (site : Site) (le : L → L → Bool) (desc : List L) (draws : List Nat) :
+    ValidDraws le desc draws ↔
+      (draws.length = (drawRequest site le desc).2.2 ∧
+       ∀ d ∈ draws, (drawRequest site le desc).1 ≤ d ∧ d < (drawRequest site le desc).2.1) := by
+  rw [draw_request_tied]
+  simp [ValidDraws]
+
+example : drawRequest Site.bothP natLe [5, 4, 5] = (0, 2, 2) := by
+  rw [draw_request_tied]; unfold drawSpec; rw [ex_uniq]; rfl
+
+/-! ### the NaN rule, read from the source text -/
+
+/-- `subsample_pattern` with the NaN decision taken by the generated leaf (the model the driver
+    runs) is the `subsamplePattern` all theorems above are about, on every descriptor of one
+    kind.  (Breaks when the diagonal is no longer filled with NaN before the selection.) -/
+theorem nan_rule_tied (s : Stack Lbl α) (by_ : String) (desc : List Lbl)
+    (hd : s.patDesc.lookup by_ = some desc) (hom : Homog desc) (value : List Lbl) :
+    s.subsamplePatternNp by_ value = s.subsamplePattern by_ value := by
+  have hv : (subVecTied s.nCond (patSelection desc value) : List (Option α) → _)
+      = subVec s.nCond (patSelection desc value) := funext (subVecTied_eq _ _)
+  simp only [Stack.subsamplePatternNp, Stack.subsamplePattern, hd, npCoerce_homog desc hom, hv]
+
+example : Homog [Lbl.int 5, Lbl.int 4, Lbl.int 5] := Or.inr (by decide)
+example : Homog [Lbl.str "a", Lbl.str "b"] := Or.inl (by decide)
+
+/-! ### numpy's coercion of mixed int / str descriptors -/
+
+/-- On descriptors of one kind (all ints or all strings — the property's quantifier) the entry
+    points *as coded*, including numpy's coercion in `np.unique` / `np.array` and the generated
+    NaN leaf, are the plain model: all theorems of this file apply to what the driver runs. -/
+theorem np_model_agrees (fixed : Bool) (s : Stack Lbl α) (rdmBy patBy : String)
+    (rdesc pdesc : List Lbl)
+    (hr : s.rdmDesc.lookup rdmBy = some rdesc) (hp : s.patDesc.lookup patBy = some pdesc)
+    (homr : Homog rdesc) (homp : Homog pdesc) (drawsR drawsP : List Nat) :
+    bootstrapSampleRdmNp fixed s rdmBy drawsR = bootstrapSampleRdm Lbl.le s rdmBy drawsR ∧
+    bootstrapSamplePatternNp s patBy drawsP = bootstrapSamplePattern Lbl.le s patBy drawsP ∧
+    bootstrapSampleNp fixed s rdmBy patBy drawsR drawsP
+      = bootstrapSample Lbl.le s rdmBy patBy drawsR drawsP ∧
+    drawRequestNp Site.bothR rdesc = drawRequest Site.bothR Lbl.le rdesc := by
+  have h1 : bootstrapSampleRdmNp fixed s rdmBy drawsR = bootstrapSampleRdm Lbl.le s rdmBy drawsR := by
+    simp [bootstrapSampleRdmNp, bootstrapSampleRdm, Stack.subsample, hr, npCoerce_homog rdesc homr]
+  refine ⟨h1, ?_, ?_, ?_⟩
+  · simp only [bootstrapSamplePatternNp, bootstrapSamplePattern, hp, npCoerce_homog pdesc homp]
+    rw [nan_rule_tied s patBy pdesc hp homp]
+  · unfold bootstrapSampleNp
+    rw [h1]
+    simp only [bootstrapSampleRdm, bootstrapSample, hr, hp, Stack.subsample, Option.map_some,
+      npCoerce_homog pdesc homp]
+    congr 1
+    have key : ∀ (s1 : Stack Lbl α), s1.patDesc = s.patDesc → ∀ v,
+        s1.subsamplePatternNp patBy v = s1.subsamplePattern patBy v :=
+      fun s1 h v => nan_rule_tied s1 patBy pdesc (by rw [h]; exact hp) homp v
+    apply key
+    rfl
+  · simp [drawRequestNp, npCoerce_homog rdesc homr]
+
+/-- Characterisation of the library on a *mixed* int / str descriptor (outside the property's
+    quantifier): `np.unique` turns every group label into a string, `RDMs.subsample` then compares
+    the python ints of the descriptor with those strings — so an RDM labelled by an int is in
+    **no** bootstrap sample, whatever the draws.  (With the repaired comparison, `fixed = true`,
+    `np_rdm_sample_multiplicity` holds instead.) -/
+theorem mixed_rdm_int_never_sampled (desc : List Lbl) (hmix : ∃ x ∈ desc, x.isStr = true)
+    (draws : List Nat) (j : Nat) (hj : j < desc.length) (hint : desc[j].isStr = false) :
+    (rdmSelection desc (bootIdx (uniq Lbl.le (npCoerce desc)) draws)).count j = 0 := by
+  rw [count_rdmSelection _ _ j hj, List.count_eq_zero]
+  intro hmem
+  have h1 : desc[j] ∈ npCoerce desc := mem_uniq.mp (mem_of_mem_bootIdx hmem)
+  have := npCoerce_mixed_isStr desc hmix _ h1
+  rw [hint] at this; cases this
+
+example : ∃ x ∈ [Lbl.int 1, Lbl.str "a", Lbl.int 1], x.isStr = true := ⟨Lbl.str "a", by decide, rfl⟩
+
+/-- With comparison on the coerced descriptor (what `subsample_pattern` does, and `subsample`
+    after the proposed repair) the sample is faithful for *every* descriptor, mixed or not, with
+    numpy's groups (`str(x)`): item `j` occurs as often as its coerced label was drawn. -/
+theorem np_sample_multiplicity (desc value : List Lbl) (j : Nat) (hj : j < desc.length) :
+    (patSelection (npCoerce desc) value).count j
+        = value.count ((npCoerce desc)[j]'(by rw [npCoerce_length]; exact hj)) ∧
+    (rdmSelection (npCoerce desc) value).count j
+        = value.count ((npCoerce desc)[j]'(by rw [npCoerce_length]; exact hj)) :=
+  ⟨count_patSelection _ _ j (by rw [npCoerce_length]; exact hj),
+   count_rdmSelection _ _ j (by rw [npCoerce_length]; exact hj)⟩
+
+/-! ### cross-object sessions: one draw, the data and several model predictions -/
+
+/-- The pattern indices returned for the data, applied to *every* model prediction of a session
+    (any number of predictions, each with its own number of RDMs and its own extra descriptors,
+    sharing the grouping descriptor): each resampled prediction exists, is well formed, has the
+    sample's number of conditions, the sample's grouping column, all its own descriptors re-indexed
+    by the *same* selection, and each of its entries `(r, i, j)` is its own source entry for the
+    same pair of original conditions `(a, b)` as in the data sample (NaN iff `a = b`). -/
+theorem session_aligned (s : Stack L α) (ms : List (Stack L α)) (hs : s.WF)
+    (hms : ∀ m ∈ ms, m.WF) (by_ : String) (desc : List L)
+    (hds : s.patDesc.lookup by_ = some desc)
+    (hdm : ∀ m ∈ ms, m.patDesc.lookup by_ = some desc) (value : List L) :
+    ∃ s', s.subsamplePattern by_ value = some s' ∧
+      (resampleAll ms by_ value).length = ms.length ∧
+      ∀ (k : Nat) (m : Stack L α), ms[k]? = some m →
+        ∃ m', (resampleAll ms by_ value)[k]? = some (some m') ∧ m'.WF ∧
+          m'.nCond = s'.nCond ∧
+          m'.patDesc = extract m.patDesc (patSelection desc value) ∧
+          s'.patDesc = extract s.patDesc (patSelection desc value) ∧
+          m'.patDesc.lookup by_ = s'.patDesc.lookup by_ ∧
+          ∀ (r : Nat) (w : List (Option α)), m.vecs[r]? = some w →
+            ∀ (i j : Nat), i < j → j < m'.nCond →
+              ∃ w' a b, m'.vecs[r]? = some w' ∧
+                (patSelection desc value)[i]? = some a ∧ (patSelection desc value)[j]? = some b ∧
+                a ≤ b ∧ b < m.nCond ∧
+                w'[triIdx m'.nCond i j]? = if a = b then some none else w[triIdx m.nCond a b]? := by
+  obtain ⟨s', hs', _, hn, _⟩ := pattern_sample_contents s hs by_ desc hds value
+  refine ⟨s', hs', by simp [resampleAll], ?_⟩
+  intro k m hk
+  have hmem : m ∈ ms := List.mem_of_getElem? hk
+  obtain ⟨s'', m', e1, e2, e3, e4, _, e6, e7⟩ :=
+    sample_pred_aligned s m hs (hms m hmem) by_ desc hds (hdm m hmem) value
+  rw [hs'] at e1
+  obtain rfl : s' = s'' := Option.some.inj e1
+  obtain ⟨m'', e2', hwf', _⟩ := pattern_sample_contents m (hms m hmem) by_ desc (hdm m hmem) value
+  rw [e2] at e2'
+  obtain rfl : m' = m'' := Option.some.inj e2'
+  refine ⟨m', ?_, hwf', e3.symm, e7, e6, e4.symm, ?_⟩
+  · simp [resampleAll, List.getElem?_map, hk, e2]
+  · intro r w hw i j hij hj
+    obtain ⟨w', a, b, f1, f2, f3, f4, f5, _, f7⟩ :=
+      sample_entry m (hms m hmem) by_ desc (hdm m hmem) value m' e2 r w hw i j hij hj
+    exact ⟨w', a, b, f1, f2, f3, f4, f5, f7⟩
+
+/-- a session with two predictions of different size on the example stack's conditions -/
+def exPreds : List (Stack Nat Nat) :=
+  [{ nCond := 3, vecs := [[some 7, some 8, some 9]],
+     rdmDesc := [("index", [0])], patDesc := [("index", [0, 1, 2]), ("cat", [5, 4, 5])] },
+   { nCond := 3, vecs := [[some 1, some 1, some 2], [some 3, some 3, some 4]],
+     rdmDesc := [("index", [0, 1]), ("model", [9, 9])],
+     patDesc := [("cat", [5, 4, 5]), ("index", [0, 1, 2])] }]
+
+example : (∀ m ∈ exPreds, m.WF) ∧ ∀ m ∈ exPreds, m.patDesc.lookup "cat" = some [5, 4, 5] := by
+  refine ⟨?_, ?_⟩ <;> intro m hm <;> simp only [exPreds, List.mem_cons, List.not_mem_nil, or_false] at hm <;>
+    rcases hm with rfl | rfl
+  · exact ⟨by decide, by decide, by decide⟩
+  · exact ⟨by decide, by decide, by decide⟩
+  · decide
+  · decide
+
+/-! ### `boot_testset.py`: the groups that were not drawn -/
+
+/-- `np.setdiff1d(descriptor, drawn)` as test-set indices: a source item is in the test set exactly
+    once if its group was not drawn and not at all if it was; it is in the bootstrap sample iff its
+    group was drawn.  So training sample and test set never share an item and together cover all. -/
+theorem testset_partition (le : L → L → Bool) (desc idx : List L) (j : Nat) (hj : j < desc.length) :
+    (patSelection desc (testIdx le desc idx)).count j = (if desc[j] ∈ idx then 0 else 1) ∧
+    (rdmSelection desc (testIdx le desc idx)).count j = (if desc[j] ∈ idx then 0 else 1) ∧
+    ((patSelection desc idx).count j = 0 ↔ desc[j] ∉ idx) ∧
+    ((rdmSelection desc idx).count j = 0 ↔ desc[j] ∉ idx) := by
+  have hc : (testIdx le desc idx).count desc[j] = (if desc[j] ∈ idx then 0 else 1) := by
+    rw [(nodup_testIdx le desc idx).count]
+    by_cases h : desc[j] ∈ idx
+    · simp [mem_testIdx, h]
+    · simp [mem_testIdx, h]
+  refine ⟨?_, ?_, ?_, ?_⟩
+  · rw [count_patSelection _ _ j hj, hc]
+  · rw [count_rdmSelection _ _ j hj, hc]
+  · rw [count_patSelection _ _ j hj, List.count_eq_zero]
+  · rw [count_rdmSelection _ _ j hj, List.count_eq_zero]
+
+/-- the number of test groups reported by `bootstrap_testset*` (`n_pattern`, `n_rdm`) is the number
+    of groups minus the number of distinct drawn groups -/
+theorem testset_size (le : L → L → Bool) (desc idx : List L) (hidx : ∀ g ∈ idx, g ∈ desc) :
+    (testIdx le desc idx).length + idx.toFinset.card = desc.toFinset.card := by
+  have h1 : (testIdx le desc idx).length = (desc.toFinset \ idx.toFinset).card := by
+    rw [← List.toFinset_card_of_nodup (nodup_testIdx le desc idx)]
+    congr 1
+    ext g
+    simp [mem_testIdx]
+  have hsub : idx.toFinset ⊆ desc.toFinset := by
+    intro g hg
+    simp only [List.mem_toFinset] at hg ⊢
+    exact hidx g hg
+  rw [h1, Finset.card_sdiff_of_subset hsub]
+  have := Finset.card_le_card hsub
+  omega
+
+example : testIdx natLe [5, 4, 5] [5, 5] = [4] := by
+  unfold testIdx; rw [ex_uniq]; decide
+
+/-! ### the two resampling steps commute (evaluate.py resamples the data in both orders) -/
+
+/-- resampling RDMs then conditions gives the same stack as conditions then RDMs -/
+theorem resample_commute (s : Stack L α) (rdmBy patBy : String) (vr vp : List L) :
+    (s.subsample rdmBy vr).bind (fun s1 => s1.subsamplePattern patBy vp) =
+    (s.subsamplePattern patBy vp).bind (fun s2 => s2.subsample rdmBy vr) := by
+  cases hr : s.rdmDesc.lookup rdmBy <;> cases hp : s.patDesc.lookup patBy <;>
+    simp [Stack.subsample, Stack.subsamplePattern, hr, hp, pick_map]
+
+/-- both descriptors exist on the example stack, so both sides are a stack (`some`) there -/
+example : exStack.rdmDesc.lookup "subj" = some [7, 7] ∧
+    exStack.patDesc.lookup "cat" = some [5, 4, 5] := by decide
+
+/-! ### `bootstrap_testset_pattern`, one iteration -/
+
+/-- the thresholds "enough groups left out" are those of the source text -/
+theorem testset_thresholds_tied (p r : Nat) :
+    (TestFn.both.hasTest p r = true ↔ 3 ≤ p ∧ 1 ≤ r) ∧
+    (TestFn.pattern.hasTest p r = true ↔ 3 ≤ p) ∧
+    (TestFn.rdm.hasTest p r = true ↔ 1 ≤ r) := by
+  refine ⟨?_, ?_, ?_⟩
+  · simp only [TestFn.hasTest, Rsa.Gen.C09.hasTestBoth, decide_eq_true_eq]
+    split <;> simp_all
+  · simp only [TestFn.hasTest, Rsa.Gen.C09.hasTestPattern, decide_eq_true_eq]
+    split <;> simp_all
+  · simp only [TestFn.hasTest, Rsa.Gen.C09.hasTestRdm, decide_eq_true_eq]
+    split <;> simp_all
+
+/-- One iteration of `bootstrap_testset_pattern` on a descriptor of one kind: the training sample is
+    the bootstrap sample for the drawn indices, the test indices are the groups that were not
+    drawn, and the test set — present iff at least 3 groups are left out — is the source stack
+    restricted to those groups (so `testset_partition` describes its conditions and
+    `sample_entry` its entries). -/
+theorem boot_testset_pattern_spec (s : Stack Lbl α) (rdmBy patBy : String) (desc : List Lbl)
+    (hd : s.patDesc.lookup patBy = some desc) (hom : Homog desc) (drawsR draws : List Nat) :
+    ∃ r, bootTestset TestFn.pattern s rdmBy patBy drawsR draws = some r ∧
+      r.patIdx = some (bootIdx (uniq Lbl.le desc) draws) ∧
+      bootstrapSamplePattern Lbl.le s patBy draws
+        = some (r.sample, bootIdx (uniq Lbl.le desc) draws) ∧
+      r.testP = some (testIdx Lbl.le desc (bootIdx (uniq Lbl.le desc) draws)) ∧
+      r.test = (if 3 ≤ (testIdx Lbl.le desc (bootIdx (uniq Lbl.le desc) draws)).length
+                then s.subsamplePattern patBy (testIdx Lbl.le desc (bootIdx (uniq Lbl.le desc) draws))
+                else none) := by
+  have hnp : ∀ v, s.subsamplePatternNp patBy v = s.subsamplePattern patBy v :=
+    fun v => nan_rule_tied s patBy desc hd hom v
+  have hthr := (testset_thresholds_tied
+    (testIdx Lbl.le desc (bootIdx (uniq Lbl.le desc) draws)).length 0).2.1
+  cases hsp : s.subsamplePattern patBy (bootIdx (uniq Lbl.le desc) draws) with
+  | none => simp [Stack.subsamplePattern, hd] at hsp
+  | some s' =>
+    refine ⟨⟨s', none, some (bootIdx (uniq Lbl.le desc) draws), none,
+      some (testIdx Lbl.le desc (bootIdx (uniq Lbl.le desc) draws)),
+      (if 3 ≤ (testIdx Lbl.le desc (bootIdx (uniq Lbl.le desc) draws)).length
+       then s.subsamplePattern patBy (testIdx Lbl.le desc (bootIdx (uniq Lbl.le desc) draws))
+       else none)⟩, ?_, rfl, ?_, rfl, rfl⟩
+    · simp only [bootTestset, bootstrapSamplePatternNp, hd, npCoerce_homog desc hom, hnp, hsp,
+        Option.map_some]
+      congr 2
+      by_cases h3 : 3 ≤ (testIdx Lbl.le desc (bootIdx (uniq Lbl.le desc) draws)).length
+      · rw [if_pos (hthr.mpr h3), if_pos h3]
+      · rw [if_neg (fun h => h3 (hthr.mp h)), if_neg h3]
+    · simp [bootstrapSamplePattern, hd, hsp]
+
+/-! ### equal frequency from symmetry alone -/
+
+/-- FULL statement of the symmetric-group argument: under *any* distribution `P` of the `m`
+    draws that does not depend on how the draw numbers are labelled (`P (σ ∘ f) = P f` for every
+    permutation `σ` of `{0,…,m-1}` — independent uniform draws are one example, "all draws equal,
+    uniformly chosen" another) every group is selected once per draw in expectation. -/
+theorem equal_frequency_symmetric (le : L → L → Bool) (desc : List L)
+    (P : (Fin (uniq le desc).length → Fin (uniq le desc).length) → ℚ)
+    (hsym : ∀ (σ : Equiv.Perm (Fin (uniq le desc).length)) f, P (fun t => σ (f t)) = P f)
+    (hone : ∑ f, P f = 1) :
+    ∀ g ∈ desc, ∑ f, P f * (selections le desc f g : ℚ) = 1 := by
+  intro g hg
+  have hnd := nodup_uniq le desc
+  obtain ⟨ia, hia, hga⟩ := List.getElem_of_mem (mem_uniq (le := le).mpr hg)
+  have e1 : ∀ f, selections le desc f g =
+      (List.finRange _).countP (fun t => decide (f t = ⟨ia, hia⟩)) := fun f => by
+    rw [← count_bootIdx_ofFn _ hnd ⟨ia, hia⟩ f]; simp only [selections, Fin.getElem_fin, hga]
+  simp only [e1]
+  exact weighted_countP_one P hsym hone ⟨ia, hia⟩
+
+/-- the uniform weighting is symmetric, so `equal_frequency_partial` is the special case -/
+theorem equal_frequency_of_uniform (le : L → L → Bool) (desc : List L)
+    (P : (Fin (uniq le desc).length → Fin (uniq le desc).length) → ℚ)
+    (hunif : ∀ f f', P f = P f') (hone : ∑ f, P f = 1) :
+    ∀ g ∈ desc, ∑ f, P f * (selections le desc f g : ℚ) = 1 :=
+  equal_frequency_symmetric le desc P (fun _ _ => hunif _ _) hone
+
+/-- a symmetric weighting that is *not* uniform: two groups, both draws equal, the common value
+    chosen evenly (outcomes (0,0) and (1,1) with weight 1/2 each) -/
+def exSymP : (Fin 2 → Fin 2) → ℚ := fun f => if f 0 = f 1 then 1 / 2 else 0
+
+example : (∀ (σ : Equiv.Perm (Fin 2)) f, exSymP (fun t => σ (f t)) = exSymP f) ∧
+    ∑ f, exSymP f = 1 ∧ ¬ (∀ f f', exSymP f = exSymP f') := by
+  refine ⟨?_, ?_, ?_⟩
+  · intro σ f
+    simp only [exSymP, σ.injective.eq_iff]
+  · rw [show (∑ f, exSymP f) = ∑ f : Fin 2 → Fin 2, exSymP f from rfl]
+    decide +kernel
+  · intro h
+    have := h (fun _ => 0) (fun t => t)
+    simp [exSymP] at this
 
 end Rsa.Props.C09
